@@ -183,11 +183,26 @@ def _arith_tabulate(ctx) -> None:
             continue
         bad, n = [], 0
         try:
-            for label, args, (kind, want) in cases(op):
+            import itertools as _it
+
+            def foreign(op_):
+                # an operand of a type the operation is not defined for: the method must answer NotImplemented (Python then tries the reflected one or raises TypeError)
+                if op_ == "__neg__":
+                    return
+                others = ["x", None, [1]] + ([1, 2.5] if op_ in ("__add__", "__radd__", "__sub__", "__mod__", "__divmod__") else [])
+                for o_ in others:
+                    yield f"{S[3]}us {op_} {o_!r}", [w.normalised(0, 0, S[3]), o_], ("ni", None)
+            for label, args, (kind, want) in _it.chain(cases(op), foreign(op)):
                 try:
                     got = w.call(op, args)
-                except AttributeError as e:
-                    if "'datetime.timedelta' object has no attribute" not in str(e):
+                except (core.Unsupported, AttributeError, TypeError) as e:
+                    if kind == "ni":
+                        # the operand is a plain value of another type (a string, None, a list, a number): the method did not answer NotImplemented
+                        # but went on to use it as a duration
+                        n += 1
+                        bad.append(f"{label}: {type(e).__name__}: {str(e)[:80]} (an operand of another type must give NotImplemented)")
+                        continue
+                    if not isinstance(e, AttributeError) or "'datetime.timedelta' object has no attribute" not in str(e):
                         raise
                     # the operand is a native timedelta standing for itself: the analysed code reads an attribute the native class does not have
                     n += 1
@@ -195,6 +210,10 @@ def _arith_tabulate(ctx) -> None:
                     continue
                 n += 1
                 try:
+                    if kind == "ni":
+                        if got is not NotImplemented:
+                            raise AssertionError(f"the result is `{got!r}`; an operand of another type must give NotImplemented")
+                        continue
                     if kind == "len":
                         g = length(got)
                     elif kind == "ymr":
@@ -222,7 +241,7 @@ def _arith_tabulate(ctx) -> None:
         if not bad:
             # the operator is right on every operand combination (native timedelta operands included, so an attribute a native operand lacks
             # would have shown): how it is written is then not a property
-            ctx.established(("DUNDER.result", "RATIO", "SCALE", "ADDSUB", "ATTR-UNDER-GUARD", "NEG.components"), f"Duration.{op}", "ARITH.tabulated")
+            ctx.established(("DUNDER.result", "DUNDER.guard", "RATIO", "SCALE", "ADDSUB", "ATTR-UNDER-GUARD", "NEG.components"), f"Duration.{op}", "ARITH.tabulated")
         ctx.ob("ARITH.tabulated", f"Duration.{op}", not bad,
                f"{n} operand combinations evaluated: " + (f"differs from the native operation: {bad[:3]}" if bad else
                "the result has the length of the native timedelta operation and is rebuilt through the operand's class"), m.loc(w.meths[op]))
